@@ -831,3 +831,102 @@ def copy_coverage(P, record, skip=()):
                         done.add(af[0])
         out[g] = sorted(fields - done)
     return sorted(fields), out
+
+
+def overflow_drops_char(f):
+    """for a std::streambuf::overflow(int c) override: the success returns (anything but the constant EOF) that can be reached without either the
+    `c == EOF` edge or an evaluation of c outside an EOF comparison - overflow(c) has to take c (store it, put it, hand it on), making room is not enough"""
+    if not f.params:
+        return []
+    cref = f.params[0]['ref']
+    uses = []
+    for i in f.all_nodes():
+        n = f.N(i)
+        if n['k'] != 'DeclRefExpr' or n.get('ref') != cref:
+            continue
+        cmp_ = False
+        for a in f.ancestors(i):
+            m = f.N(a)
+            if m['k'] in ('ImplicitCastExpr', 'ParenExpr'):
+                continue
+            if m['k'] == 'BinaryOperator' and m.get('op') in ('==', '!=') and any(f.const_value(c_) == -1 for c_ in m['ch']):
+                cmp_ = True
+            break
+        if not cmp_:
+            uses.append(i)
+
+    def is_eof(atom, pol):
+        n = f.N(atom)
+        if n['k'] != 'BinaryOperator' or n.get('op') not in ('==', '!='):
+            return False
+        sides = n['ch']
+        if not any(f.const_value(s_) == -1 for s_ in sides) or not any(f.ref_of(s_) == cref for s_ in sides):
+            return False
+        return pol is (n.get('op') == '==')
+    gates = f.gate_edges(is_eof)
+    cut_edges = set(tuple(e) for e in gates)
+    out = []
+    for r in f.returns():
+        v = f.ret_value(r)
+        if v is None or f.const_value(v) == -1:
+            continue
+        extra = set()
+        vref = f.ref_of(v)
+        if vref and vref.startswith('v:') and vref != cref:
+            # `return r;` of a status variable: the paths on which r was tested non-zero are the failure paths
+            def failed(atom, pol, vref=vref):
+                n = f.N(atom)
+                if n['k'] == 'BinaryOperator' and n.get('op') in ('==', '!=') and f.ref_of(n['ch'][0]) == vref and f.const_value(n['ch'][1]) == 0:
+                    return pol is (n.get('op') == '!=')
+                return f.ref_of(atom) == vref and pol is True
+            extra = set(tuple(e) for e in f.gate_edges(failed))
+        reach = f.reachable_blocks(cut_edges=cut_edges | extra, cut_blocks=blocks_of(f, uses) | f.abnormal_blocks(), with_catch=False)
+        p = f.point_of(r)
+        if p is not None and p[0] in reach:
+            out.append(r)
+    return out
+
+
+def documented_config_keys(path):
+    """dotted option paths of the reference configuration (src/config.js: extended JSON; options that are commented out count - the file documents every option that way).
+    returns (set of paths, ok) - ok is False when the braces do not balance (the file could not be understood)"""
+    import re as _re
+    toks = []
+    for line in open(path, encoding='latin-1'):
+        i, n = 0, len(line)
+        while i < n:
+            ch = line[i]
+            if ch == '"':
+                j = i + 1
+                while j < n and line[j] != '"':
+                    j += 2 if line[j] == '\\' else 1
+                toks.append(('s', line[i + 1:j]))
+                i = j + 1
+            elif line.startswith('//', i):
+                rest = line[i:].lstrip('/').strip()
+                if _re.match(r'"[A-Za-z_0-9]+"\s*:', rest):
+                    i += 2
+                    while i < n and line[i] == '/':
+                        i += 1
+                else:
+                    break
+            elif ch in '{}[]:,':
+                toks.append((ch, ch))
+                i += 1
+            else:
+                i += 1
+    keys, stack, pend = set(), [], None
+    ok = True
+    for k, (t, v) in enumerate(toks):
+        if t == 's' and k + 1 < len(toks) and toks[k + 1][0] == ':' and (not stack or stack[-1][0] == '{'):
+            pend = v
+            keys.add('.'.join([s[1] for s in stack if s[0] == '{' and s[1]] + [v]))
+        elif t in '{[':
+            stack.append((t, pend if (k and toks[k - 1][0] == ':') else None))
+            pend = None
+        elif t in '}]':
+            if not stack or stack[-1][0] != ('{' if t == '}' else '['):
+                ok = False
+                break
+            stack.pop()
+    return keys, ok and not stack
